@@ -317,7 +317,17 @@ fn run_plan(plan: &C04Plan, want_trace: bool) -> RunOut {
         Ok((o, _)) => o,
     };
     let got = got.lock().unwrap();
-    if outcome != "done" {
+    // (see below: a reader may give a packet up during a long stall; what it does with the rest of
+    // the stream afterwards - mis-framed by then - is not judged, a dead end included)
+    let early_long_stall: Option<u64> = plan.stalls.iter().filter(|(_, ms)| *ms >= 1000).map(|(off, _)| *off as u64).min();
+    let gave_up_early = match early_long_stall {
+        Some(s) => {
+            got.frames.iter().enumerate().any(|(i, f)| f.0.is_err() && ends.get(i).map(|e| *e > s).unwrap_or(true))
+                || (s < ack_len && matches!(*ack_seen.lock().unwrap(), Some((false, _))))
+        }
+        None => false,
+    };
+    if outcome != "done" && !gave_up_early {
         out.fail(
             "no_progress",
             format!("{sig}/{outcome}"),
@@ -334,7 +344,8 @@ fn run_plan(plan: &C04Plan, want_trace: bool) -> RunOut {
         // whatever write_packet_with_ack makes of an acknowledgement that carries data, it must have
         // consumed exactly that packet
         if let Some((ok, cur)) = *ack_seen.lock().unwrap() {
-            if cur != ack_len {
+            let stalled_inside = plan.stalls.iter().any(|(off, ms)| *ms >= 1000 && (*off as u64) < ack_len);
+            if cur != ack_len && !(stalled_inside && !ok) {
                 out.fail(
                     if cur > ack_len { "read_ahead" } else { "under_read" },
                     format!("{sig}/ack"),
@@ -345,7 +356,33 @@ fn run_plan(plan: &C04Plan, want_trace: bool) -> RunOut {
         }
     }
     // (1) frames in order, byte-identical; (2) cursor at the boundary after each
+    // A reader that gives a packet up after a second or more of silence breaks nothing in this
+    // property: from the first long stall on, an error (and whatever follows it) is acceptable -
+    // a wrong packet never is.
+    let long_stall: Option<u64> = plan.stalls.iter().filter(|(_, ms)| *ms >= 1000).map(|(off, _)| *off as u64).min();
+    let mut gave_up = false;
+    if gave_up_early && plan.cut.is_some() {
+        // with a cut as well, the stalled packet may lie beyond the complete ones
+        gave_up = true;
+    }
+    if let (Some(s), Some((false, _))) = (long_stall, *ack_seen.lock().unwrap()) {
+        if s < ack_len {
+            // gave up inside the acknowledgement in front
+            gave_up = true;
+        }
+    }
     for i in 0..expect_ok {
+        if gave_up {
+            break;
+        }
+        if let (Some(s), Some((Err(_), cur))) = (long_stall, got.frames.get(i)) {
+            // (a packet the parser refuses fails anyway; it was given up if it was not consumed completely)
+            if ends[i] > s && (!rejected_for_judge[i] || *cur != ends[i]) {
+                out.stats.hit("probe.gave_up_during_a_stall");
+                gave_up = true;
+                break;
+            }
+        }
         if rejected_for_judge[i] {
             // refused by the parser: an error, the packet consumed completely, nothing more
             match got.frames.get(i) {
@@ -399,7 +436,9 @@ fn run_plan(plan: &C04Plan, want_trace: bool) -> RunOut {
             }
         }
     }
-    if plan.cut.is_some() {
+    if gave_up {
+        // nothing after the point where the reader gave up is judged
+    } else if plan.cut.is_some() {
         // (4) the call after the last complete packet must fail, and so must the next
         for j in expect_ok..got.frames.len() {
             if let (Ok(f), _) = &got.frames[j] {
